@@ -629,21 +629,14 @@ func handleAddition(left, right interface{}, operator token.Token) interface{} {
 	// Handle number addition and string concatenation
 	switch l := left.(type) {
 	case int64, float64:
-		leftNum, err := toNumber(left)
-		if err != nil {
-			utils.RuntimeError(operator, "Left operand must be a number.")
-			return nil
-		}
-		rightNum, err := toNumber(right)
-		if err == nil {
+		if isNumber(right) {
+			leftNum, _ := toNumber(left)
+			rightNum, _ := toNumber(right)
 			return leftNum + rightNum
 		}
-		rightStr, ok := right.(string)
-		if ok {
-			return fmt.Sprintf("%v", leftNum) + rightStr
-		}
-		if rightStr, ok := right.([]rune); ok {
-			return fmt.Sprintf("%v", leftNum) + string(rightStr)
+		if rightStr, ok := asString(right); ok {
+			leftStr, _ := stringifyOperand(left)
+			return leftStr + rightStr
 		}
 	case string:
 		rightStr, err := stringifyOperand(right)
